@@ -7,7 +7,7 @@ if ! git diff --quiet; then echo "repo not clean"; exit 2; fi
 git apply "$patch" || { echo "patch does not apply"; exit 2; }
 cd /verif && timeout 3000 bin/check "$id" "$tier" > /tmp/trypatch_$id.log 2>&1
 rc=$?
-git -C /repo checkout -- .
+git -C /repo checkout -- .; git -C /verif checkout -- evidence
 echo "check $id $tier on $(basename $(dirname $patch)): exit $rc"
 grep -E "VIOLATION|KNOWN-FINDING|SELFTEST|^C[0-9]+ " /tmp/trypatch_$id.log | cut -c1-400 | head -12
 exit $rc
